@@ -175,7 +175,8 @@ def apply_op(tiers: list, op: dict) -> StepResult:
                 # a time that differs from an existing point's by less than the library's fuzzy equality
                 base = ents0[op["near"] % len(ents0)].time
                 cands = gen.near_values(base)
-                t_new = cands[op.get("near_k", 0) % len(cands)]
+                if cands:
+                    t_new = cands[op.get("near_k", 0) % len(cands)]
             ent = (t_new, op["label"])
             obj = p.Point(*ent)
         arg = obj if op["form"] == "obj" else (tuple(ent) if op["form"] == "tuple" else list(ent))
